@@ -320,8 +320,9 @@ func ruleR47(c *Ctx) {
 			}
 		}
 	}
+	// no floor of its own: the lane helpers are decided semantically by R53 (whose floor applies);
+	// this pattern clause only adds the dominance argument for the read-modify-write form
 	c.r.note("R47: %d single-lane stores into packed key words", n)
-	c.r.floor("R47", 1, "lane stores", "C11")
 }
 
 // R48 OWNEDKEY (C17) – the byte strings a key codec's Transform hands to the tree are either
@@ -921,4 +922,234 @@ func ruleR51(c *Ctx) {
 	}
 	c.r.note("R51: %d dispatchers of the reference type", n)
 	c.r.floor("R51", 2, "dispatchers", "C06")
+}
+
+// R52 LENUNIT (C04, C08) – two lengths that are compared with one another count the same unit.
+// len() of a string or []byte counts bytes, len() of a []rune counts runes, and len() of a value
+// whose type is a type parameter counts whatever the instantiation has: comparing the rune count
+// of a []rune key with the byte length of its UTF-8 form rejects (or accepts) the wrong keys as
+// soon as a key has a multi-byte character.
+func ruleR52(c *Ctx) {
+	m := c.m
+	info := m.Info
+	props := []string{"C04", "C08"}
+	unitOf := func(t types.Type) string {
+		// "bytes", "runes", "mixed" (a type parameter whose terms disagree), "" (not a text length)
+		one := func(t types.Type) string {
+			switch u := t.Underlying().(type) {
+			case *types.Basic:
+				if u.Info()&types.IsString != 0 {
+					return "bytes"
+				}
+			case *types.Slice:
+				if b, ok := u.Elem().Underlying().(*types.Basic); ok {
+					switch b.Kind() {
+					case types.Uint8:
+						return "bytes"
+					case types.Int32:
+						return "runes"
+					}
+				}
+			}
+			return ""
+		}
+		if tp, ok := types.Unalias(t).(*types.TypeParam); ok {
+			units := map[string]bool{}
+			for _, term := range typeSetTerms(tp) {
+				units[one(term)] = true
+			}
+			if len(units) == 1 {
+				for u := range units {
+					return u
+				}
+			}
+			if units["bytes"] && units["runes"] {
+				return "mixed"
+			}
+			return ""
+		}
+		return one(t)
+	}
+	lenArg := func(e ast.Expr) ast.Expr {
+		call, ok := ast.Unparen(e).(*ast.CallExpr)
+		if ok && isBuiltinCall(info, call, "len") && len(call.Args) == 1 {
+			return call.Args[0]
+		}
+		return nil
+	}
+	n := 0
+	for _, u := range c.sortedUnits() {
+		if u.Body == nil {
+			continue
+		}
+		ast.Inspect(u.Body, func(x ast.Node) bool {
+			if lit, ok := x.(*ast.FuncLit); ok && ast.Node(lit) != ast.Node(u.Lit) {
+				return false
+			}
+			be, ok := x.(*ast.BinaryExpr)
+			if !ok {
+				return true
+			}
+			switch be.Op {
+			case token.LSS, token.LEQ, token.GTR, token.GEQ, token.EQL, token.NEQ:
+			default:
+				return true
+			}
+			la, ra := lenArg(be.X), lenArg(be.Y)
+			if la == nil || ra == nil {
+				return true
+			}
+			lu, ru := unitOf(info.TypeOf(la)), unitOf(info.TypeOf(ra))
+			if lu == "" || ru == "" {
+				return true
+			}
+			n++
+			key := fmt.Sprintf("%s compares len(%s) with len(%s) in one unit", u.Name, types.ExprString(la), types.ExprString(ra))
+			sameTP := func() bool {
+				a, aok := types.Unalias(info.TypeOf(la)).(*types.TypeParam)
+				b, bok := types.Unalias(info.TypeOf(ra)).(*types.TypeParam)
+				return aok && bok && a == b
+			}
+			switch {
+			case lu == ru && lu != "mixed", sameTP():
+				c.r.ok("R52", key, m.pos(be.Pos()), "both count "+lu, props...)
+			default:
+				c.r.bad("R52", key, m.pos(be.Pos()), fmt.Sprintf("len(%s) counts %s, len(%s) counts %s (a key type whose type set has both []rune and byte strings counts runes in one instantiation and bytes in the other): with a multi-byte character the two lengths are not comparable", types.ExprString(la), map[string]string{"mixed": "runes or bytes depending on the key type"}[lu]+map[string]string{"bytes": "bytes", "runes": "runes"}[lu], types.ExprString(ra), map[string]string{"mixed": "runes or bytes depending on the key type"}[ru]+map[string]string{"bytes": "bytes", "runes": "runes"}[ru]), props...)
+			}
+			return true
+		})
+	}
+	c.r.note("R52: %d comparisons of two text lengths", n)
+}
+
+// R54 PRUNEWINDOW (C03, C09) – a range scan that skips a subtree because the node's compressed path
+// and the bounds' common prefix have no first byte in common (longestCommonPrefix(…) == 0 → continue)
+// compares two NON-EMPTY byte strings: an empty window also gives 0, and the subtree – every key of
+// which may lie in range – is dropped. Decided with the linear facts of the CFG engine: at the
+// comparison both lengths are provably ≥ 1 (for a window s[lo:lo+min(x, C)]: x ≥ 1 and C ≥ 1). The
+// rule covers this one pruning idiom; another way of writing the pruning test is not examined
+// (the pruning arithmetic as a whole is declared not decided for C03).
+func ruleR54(c *Ctx) {
+	m := c.m
+	info := m.Info
+	props := []string{"C03", "C09"}
+	n := 0
+	lcp := m.unitByBase("longestCommonPrefix")
+	if lcp == nil || lcp.Obj == nil {
+		c.r.note("R54: no longestCommonPrefix function; nothing examined")
+		return
+	}
+	for _, u := range c.sortedUnits() {
+		if u.Body == nil || len(c.attribute(u, "C03")) == 0 {
+			continue
+		}
+		fl := c.e.flow(u)
+		fl.walk(func(node ast.Node, fs *FactSet, stmt ast.Node, b *cfg.Block) {
+			ifs, ok := node.(*ast.IfStmt)
+			_ = ifs
+			if ok {
+				return
+			}
+			// the condition node of `if idx == 0 { continue }`
+			be, ok := node.(*ast.BinaryExpr)
+			if !ok || be.Op != token.EQL || node != stmt {
+				return
+			}
+			tv, has := info.Types[be.Y]
+			if !has || tv.Value == nil || tv.Value.ExactString() != "0" {
+				return
+			}
+			id, ok := ast.Unparen(be.X).(*ast.Ident)
+			if !ok {
+				return
+			}
+			def := m.resolveLocal(u, id)
+			call, ok := ast.Unparen(def).(*ast.CallExpr)
+			if def == nil || !ok || m.staticCallee(call) != lcp.Obj || len(call.Args) < 2 {
+				return
+			}
+			// the true edge must skip the node (continue)
+			if len(b.Succs) != 2 {
+				return
+			}
+			skips := false
+			ast.Inspect(u.Body, func(z ast.Node) bool {
+				if is, ok := z.(*ast.IfStmt); ok && ast.Unparen(is.Cond) == ast.Expr(be) && len(is.Body.List) == 1 {
+					if br, ok := is.Body.List[0].(*ast.BranchStmt); ok && br.Tok == token.CONTINUE {
+						skips = true
+					}
+				}
+				return true
+			})
+			if !skips {
+				return
+			}
+			n++
+			key := fmt.Sprintf("%s prunes on a comparison of non-empty byte strings", u.Name)
+			// geOne: e >= 1 is provable here
+			geOne := func(e ast.Expr) bool {
+				if tv, ok := info.Types[e]; ok && tv.Value != nil {
+					v, _ := constantInt64(tv)
+					return v >= 1
+				}
+				l, ok := fl.z.lin(e)
+				if !ok {
+					return false
+				}
+				goal := linConst(1).add(l, -1) // 1 - e <= 0
+				return fs.proveLin(goal)
+			}
+			var lenGeOne func(e ast.Expr, depth int) (bool, string)
+			lenGeOne = func(e ast.Expr, depth int) (bool, string) {
+				e = ast.Unparen(e)
+				if idn, ok := e.(*ast.Ident); ok && depth < 3 {
+					if d := m.resolveLocal(u, idn); d != nil {
+						return lenGeOne(d, depth+1)
+					}
+				}
+				minArgs := func(x ast.Expr) []ast.Expr {
+					if mc, ok := ast.Unparen(x).(*ast.CallExpr); ok && isBuiltinCall(info, mc, "min") {
+						return mc.Args
+					}
+					return []ast.Expr{x}
+				}
+				switch x := e.(type) {
+				case *ast.CallExpr:
+					if m.calleeName(x) == "unsafe.Slice" && len(x.Args) == 2 {
+						for _, a := range minArgs(x.Args[1]) {
+							if !geOne(a) {
+								return false, "the length " + types.ExprString(a) + " of " + types.ExprString(e) + " is not known to be at least 1"
+							}
+						}
+						return true, ""
+					}
+				case *ast.SliceExpr:
+					if x.Low != nil && x.High != nil {
+						// s[lo : lo + E]
+						if hb, ok := ast.Unparen(x.High).(*ast.BinaryExpr); ok && hb.Op == token.ADD && exprText(hb.X) == exprText(x.Low) {
+							for _, a := range minArgs(hb.Y) {
+								if !geOne(a) {
+									return false, "the window " + types.ExprString(e) + " may be empty: " + types.ExprString(a) + " is not known to be at least 1"
+								}
+							}
+							return true, ""
+						}
+					}
+				}
+				return false, "form of " + types.ExprString(e) + " not recognised"
+			}
+			okA, whyA := lenGeOne(call.Args[0], 0)
+			okB, whyB := lenGeOne(call.Args[1], 0)
+			switch {
+			case okA && okB:
+				c.r.ok("R54", key, m.pos(be.Pos()), "both operands of "+types.ExprString(call.Fun)+" are provably non-empty where the result is compared with 0", props...)
+			case strings.Contains(whyA+whyB, "not recognised"):
+				c.r.note("R54: %s: %s %s – pruning idiom not examined", u.Name, whyA, whyB)
+				n--
+			default:
+				c.r.bad("R54", key, m.pos(be.Pos()), strings.TrimSpace(whyA+" "+whyB)+": an empty comparison also yields 0, and the subtree – whose keys may all lie within the bounds – is skipped", props...)
+			}
+		})
+	}
+	c.r.note("R54: %d pruning comparisons examined", n)
 }
